@@ -69,6 +69,27 @@ struct Prefill {
     }
 };
 
+// The stack below the caller as the context wants it, re-applied right before the library is
+// entered: the harness's own helper calls (malloc, prefill loops) otherwise leave their frames
+// where the library's locals will live, and which of them a local meets depends on frame layout.
+// Only for contexts without a call history (the history contexts are about exactly those frames).
+static int g_stamp_kind = -1; // -1 off, else stackctx::Fill
+static uint64_t g_stamp_word = 0;
+__attribute__((noinline)) static void stamp_stack() {
+    if (g_stamp_kind < 0) return;
+    volatile uint64_t buf[3072];
+    uint64_t w = g_stamp_word;
+    if (g_stamp_kind == stackctx::WORD32) w = (w & 0xffffffffULL) | (w << 32);
+    if (g_stamp_kind == stackctx::GARBAGE) {
+        Rng r(g_stamp_word ^ 0x57a3b);
+        for (size_t i = 0; i < 3072; i++) buf[i] = r.next();
+    } else {
+        if (g_stamp_kind == stackctx::ZERO) w = 0;
+        for (size_t i = 0; i < 3072; i++) buf[i] = w;
+    }
+    __asm__ volatile("" ::"r"(buf) : "memory");
+}
+
 struct Buf { // heap buffer with a canary tail: silent damage must not outlive the call
     uint8_t *p;
     uint8_t *base;
@@ -80,6 +101,7 @@ struct Buf { // heap buffer with a canary tail: silent damage must not outlive t
         p = base + (pf.shift & 63);
         pf.apply(p, n, salt);
         memset(p + n, 0xC7, 64);
+        stamp_stack();
     }
     ~Buf() { free(base); }
     bool intact() const {
@@ -130,6 +152,7 @@ uint64_t api_call(const Op &op, const Vals &v_in, const Prefill &pf, bool &ok) {
     uint64_t *in = (uint64_t *)(in_base + (pf.shift & 56));
     memcpy(in, v.data(), n * 8);
     int metamode = (int)op.u("meta") % 3; // 0 NULL, 1 zero-initialised, 2 pre-analysed
+    stamp_stack();
     if (k == "adaptive.encode" || k == "adaptive.encode_with") {
         Buf dst(varintAdaptiveMaxSize(n) * 2 + 4096, pf, 1);
         varintAdaptiveMeta meta;
@@ -631,10 +654,13 @@ class Residue : public Engine {
         std::string note = g_ctx_note_for(op, c);
         calls.push_back([&]() {
             ctx_note(note);
+            g_stamp_kind = c.history == 0 ? (int)c.stack : -1;
+            g_stamp_word = c.word;
             int saved = fegetround();
             if (c.history == 10) fesetround(FE_UPWARD);
             if (c.history == 11) fesetround(FE_TOWARDZERO);
             digest = api_call(op, vals, c.out, ok);
+            g_stamp_kind = -1;
             fesetround(saved);
         });
         stackctx::run(calls, c.stack, c.word);
